@@ -7,6 +7,7 @@ mod rng;
 mod p15;
 mod p07;
 mod p11;
+mod p12;
 mod p13;
 mod p16;
 mod p17;
@@ -110,6 +111,7 @@ fn main() {
         "C15" => p15::run(&args),
         "C16" => p16::run(&args),
         "C11" => p11::run(&args),
+        "C12" => p12::run(&args),
         "C13" => p13::run(&args),
         "C07" => p07::run(&args),
         "C17" => p17::run(&args),
